@@ -17,7 +17,7 @@ PROPS = {
         "explanation": "CONV: for every scalar converter behind mpt_data_converter() and the numeral back ends, every case of the type switch is "
                        "analysed with the interval engine in query mode (dest==NULL) and store mode; obligations O1-O6 (reported size, single in-range "
                        "store of the right width, no null dereference, ctype table domain, no store on error, same verdict in both modes). "
-                       "ERANGE: every strto*() result reaches a success return only through a test of errno. CONVBOTH: a function with an optional destination that delegates to a converter runs the converter also when the destination is null (trace partition on its null test).",
+                       "ERANGE: every strto*() result reaches a success return only through a test of errno. UNSIGNEDTEXT: a function that calls the C library's unsigned text parsers (which accept a minus sign and negate modulo 2^N without error) looks at the text for a '-' itself. CONVBOTH: a function with an optional destination that delegates to a converter runs the converter also when the destination is null (trace partition on its null test).",
         "not_decided": "library semantics of strtoumax('-1'), consumed-length arithmetic",
         "assumptions": ["C/POSIX locale single-byte ctype classes are ASCII", "two's complement, widths from clang TargetInfo for x86_64"],
         "technique": "interval abstract interpretation with guard refinement over the clang CFG, per switch case and destination mode",
@@ -29,6 +29,7 @@ PROPS = {
             {"run": rules_conv.run, "floor": 300},
             {"run": rules_conv.run_erange, "floor": 5, "scope": "anchors"},
             {"run": rules_conv.run_convboth, "floor": 8},
+            {"run": rules_conv.run_unsignedtext, "floor": 1},
             {"run": rules_table.run_typemap, "floor": 120, "scope": "anchors"},
             {"run": rules_layout.run_errprop, "floor": 100, "scope": "anchors"},
             {"run": rules_layout.run_convdest, "floor": 60, "scope": "anchors"},
